@@ -9,6 +9,7 @@ PROPS = {
     "C14": ["u_apiwrap"],
     "C01": ["u_indexsets"],
     "C18": ["u_candman"],
+    "C20": ["u_pswarm"],
 }
 COMMON_ASSUME = [
     "CBMC 6.11 and its C semantics are trusted; double is IEEE-754 binary64 round-to-nearest",
@@ -46,6 +47,9 @@ PROP_META = {
   "level_text": "pending", "level_note": "pending", "assumptions": COMMON_ASSUME, "not_decided": [],
  },
  "C18": {
+  "level_text": "pending", "level_note": "pending", "assumptions": COMMON_ASSUME, "not_decided": [],
+ },
+ "C20": {
   "level_text": "pending", "level_note": "pending", "assumptions": COMMON_ASSUME, "not_decided": [],
  },
 }
